@@ -43,6 +43,8 @@ Inductive case :=
 | L125 (hi floor : Z) (o : res Z)
 | IsCanon (v : Z) (o : res bool)
 | Stored (cross : list Z) (buffer : Z) (o : res (list Z))
+(* CanonicalOneTwoFive::new(cap, maxd, mind, buffer).plan(..): caller-chosen bounds *)
+| PlanNew (total nc cap maxd mind buffer fee : Z) (os : ospec) (o : res planrec) (same_under_other_rng : bool)
 (* engine::plan_migration_with over a wallet holding [notes]: the denomination plan it previews and
    the number of preparation transactions of the layout the REAL preparation planner produced *)
 | Engine (notes : list Z) (cap buffer fee : Z) (o : outcome (planrec * Z) eerr) (same_under_other_rng : bool).
@@ -75,6 +77,8 @@ Definition run_case (c : case) : bool :=
   | L125 hi floor o => outcome_eqb Z.eqb unit_eqb (Ok (largest_one_two_five hi floor)) o
   | IsCanon v o => outcome_eqb Bool.eqb unit_eqb (Ok (is_canonical_denomination v)) o
   | Stored cross buffer o => outcome_eqb lz_eqb unit_eqb (stored_outputs cross buffer) o
+  | PlanNew total nc cap maxd mind buffer fee os o _ =>
+      outcome_eqb planrec_eqb unit_eqb (plan (mkStrategy cap maxd mind buffer) total nc fee (eval_oracle os)) o
   | Engine notes cap buffer fee o _ =>
       let total := sumZ notes in
       let nc := Z.of_nat (length notes) in
@@ -143,6 +147,39 @@ Definition plan_ok (total nc cap buffer fee : Z) (os : ospec) (p : planrec) : bo
       | None => true
       end).
 
+(** The same clauses for caller-chosen bounds: the admissible denominations are [series_of mind maxd]. *)
+Definition gplan_core_ok (L : list Z) (total nc cap buffer fee : Z) (p : planrec) : bool :=
+  let full := split_of L (Z.to_nat cap) total buffer fee (nc =? 1) in
+  let cross := p_cross p in
+  forallb (fun v => existsb (Z.eqb v) L) cross
+  && nonincreasing cross
+  && (Z.of_nat (length cross) <=? cap)
+  && is_prefix cross full
+  && lz_eqb (p_out p) (map (fun c => c + buffer) cross)
+  && (p_migr p =? sumZ cross) && (p_total p =? total) && (p_buf p =? buffer)
+  && (sumZ (p_out p) + p_fees p + optZ (p_change p) =? total)
+  && (match p_change p with Some c => 0 <? c | None => true end)
+  && (0 <=? p_fees p).
+
+Definition gplan_ok (total nc cap maxd mind buffer fee : Z) (os : ospec) (p : planrec) : bool :=
+  let L := series_of mind maxd in
+  let capn := Z.to_nat cap in
+  let full := split_of L capn total buffer fee (nc =? 1) in
+  gplan_core_ok L total nc cap buffer fee p
+  && (match accepted_answer os p with
+      | Some n => p_fees p =? Z.of_N n * fee
+      | None => false
+      end)
+  && (match eval_oracle os O (map (fun c => c + buffer) full) with
+      | Some n =>
+          if (Z.of_N n =? assumed_of L capn total buffer fee (nc =? 1)) then
+            lz_eqb (p_cross p) full
+            && ((maxd <? mind) || (cap <=? Z.of_nat (length full))
+                || (optZ (p_change p) <? mind + buffer + fee))
+          else true
+      | None => true
+      end).
+
 Definition prop_case (c : case) : bool :=
   match c with
   | Plan total nc cap buffer fee os o same =>
@@ -159,6 +196,8 @@ Definition prop_case (c : case) : bool :=
       | Err _ => existsb (fun c => MAX_MONEY <? c + buffer) cross
       | Panic => false
       end
+  | PlanNew total nc cap maxd mind buffer fee os o same =>
+      same && match o with Ok p => gplan_ok total nc cap maxd mind buffer fee os p | _ => false end
   | Engine notes cap buffer fee o same =>
       let total := sumZ notes in
       let nc := Z.of_nat (length notes) in
@@ -213,6 +252,21 @@ Definition tag_case (c : case) : N :=
       end
   | IsCanon v o => match o with Ok true => 27%N | Ok false => if (v <? MIN) || (CAP <? v) then 28%N else 29%N | _ => 30%N end
   | Stored _ _ o => match o with Ok _ => 31%N | Err _ => 32%N | Panic => 33%N end
+  | PlanNew total nc cap maxd mind buffer fee os o _ =>
+      let L := series_of mind maxd in
+      let full := split_of L (Z.to_nat cap) total buffer fee (nc =? 1) in
+      match o with
+      | Ok p =>
+          if maxd <? mind then 51%N
+          else if cap =? 0 then 52%N
+          else if exact_note_of L total buffer (nc =? 1) then (if is_nil (p_cross p) then 54%N else 53%N)
+          else match full with
+               | [] => 55%N
+               | _ => if (length (p_cross p) =? length full)%nat then 56%N
+                      else if is_nil (p_cross p) then 58%N else 57%N
+               end
+      | _ => 59%N
+      end
   | Engine notes cap buffer fee o _ =>
       let total := sumZ notes in
       let nc := Z.of_nat (length notes) in
